@@ -87,7 +87,7 @@ func checkC13(c *an.Ctx) {
 
 	// C13.3
 	executeTable(c, r, "C13.3", false)
-	hookTables(c, r, "C13.3")
+	checkRunTable(c, "C13.3", map[string]bool{"hooks": true})
 
 	// C13.4
 	decoding(c, "C13.4")
